@@ -719,11 +719,64 @@ Print Assumptions C05_balance_examples.
 
 (** The real table is not empty and covers the ClientID extraction. *)
 Example C05_balance_table_covers_clientid_extraction :
-  existsb (fun f => String.eqb (bf_fn f) "(*dnsforward.Server).clientIDFromDNSContext" && is_plain f &&
+  existsb (fun f => String.eqb (bf_fn f) clientid_fn_name && is_plain f &&
                     existsb (fun x => negb (nil_b (be_events x))) (bf_exits f)) balance_fns = true /\
   Nat.leb 20 (List.length balance_fns) = true.
 Proof. exact balance_table_covers_clientid_extraction. Qed.
 Print Assumptions C05_balance_table_covers_clientid_extraction.
+
+
+(** * Round 7: no blocking channel operation under a lock
+
+    A goroutine that waits in a channel send / receive while it holds a mutex
+    is not a finite list of lock events: whether the operation completes
+    depends on another thread's later progress, which the machine cannot
+    express.  The translator therefore lists every potentially blocking channel
+    operation (send, receive, select without default, WaitGroup.Wait) that is
+    reachable with a non-empty must-held lock set (Gen/LockTableChan.v); each
+    must be justified, pair function@channel by pair, in
+    tools/locktable/handover.json (blocking_ok). *)
+
+From AGH Require Import Proofs.LockTableChan Gen.LockTableChan Proofs.LockTableChanInst.
+
+Theorem C05_no_blocking_channel_op_under_lock : chan_ok chan_rows chan_justified = true.
+Proof. exact no_blocking_channel_op_under_lock. Qed.
+Print Assumptions C05_no_blocking_channel_op_under_lock.
+
+Theorem C05_current_source_channel_ops_justified :
+  forall r, In r chan_rows -> exists reason, In (chan_key r, reason) chan_justified.
+Proof. exact current_source_channel_ops_justified. Qed.
+Print Assumptions C05_current_source_channel_ops_justified.
+
+Theorem C05_chan_ok_justified : forall rows just,
+  chan_ok rows just = true ->
+  forall r, In r rows -> exists reason, In (chan_key r, reason) just.
+Proof. exact chan_ok_justified. Qed.
+Print Assumptions C05_chan_ok_justified.
+
+(** Why the rows matter, in the machine's own terms: seeded change C05-M with
+    the full queue as a lock the worker holds while it works.  The request
+    sends under serverLock.RLock, the worker's reverse lookup takes
+    serverLock.RLock, an admin write closes the cycle through writer
+    preference: deadlocked, and no ranking or gate excludes it. *)
+Example C05_blocking_send_under_lock_deadlocks :
+  let worker := [Acq "chan clientIPs" W; Acq "serverLock" R; Rel "serverLock" R; Rel "chan clientIPs" W] in
+  let request := [Acq "serverLock" R; Acq "chan clientIPs" W; Rel "chan clientIPs" W; Rel "serverLock" R] in
+  let admin := [Acq "serverLock" W; Wr "conf"; Rel "serverLock" W] in
+  exists s, reachable (init [worker; request; admin]) s /\ deadlocked s.
+Proof. exact blocking_send_under_lock_deadlocks. Qed.
+Print Assumptions C05_blocking_send_under_lock_deadlocks.
+
+Example C05_chan_ok_examples :
+  let row := ChanRow "client.DefaultAddrProc.Process" "send" "client.DefaultAddrProc.clientIPs"
+               [("client.DefaultAddrProc.clientIPsMu", W); ("dnsforward.Server.serverLock", R)]
+               "internal/client/addrproc.go:231" "dns:(*dnsforward.Server).handleDNSRequest" in
+  chan_ok [row] [] = false /\
+  chan_ok [row] [("filtering.DNSFilter.Close@filtering.DNSFilter.done", "one send into a buffer of 1")] = false /\
+  chan_ok [row] [("client.DefaultAddrProc.Process@client.DefaultAddrProc.clientIPs", "a reason")] = true /\
+  chan_ok [] [] = true.
+Proof. exact chan_ok_examples. Qed.
+Print Assumptions C05_chan_ok_examples.
 
 
 (** * Round 4: lease names that flow from the admin API into DNS answers
